@@ -160,13 +160,13 @@ pub fn run(p: &Prog, args: &[i64], budget: u64) -> RefOutcome {
                     if i != var.i {
                         return Err("invoke: closure not last".into());
                     }
-                    if env.len() != args.len() {
-                        return Err("invoke: environment length".into());
-                    }
+                    // `linearize` leaves the argument list of invoke/call empty (the environment is
+                    // the argument list), so only the environment is authoritative here
+                    let _ = args;
                     let Val::Clo(c) = v else { return Err("invoke: not a closure".into()) };
                     let cl = c.clauses.iter().find(|cl| cl.xtor == *tag).ok_or("invoke: no clause")?;
-                    if cl.ctx.len() != args.len() {
-                        return Err("invoke: argument count".into());
+                    if cl.ctx.len() != env.len() {
+                        return Err("invoke: environment length".into());
                     }
                     for (b, e) in cl.ctx.iter().zip(env.iter_mut()) {
                         e.0 = b.v.i;
@@ -271,9 +271,8 @@ pub fn check_prog(p: &Prog) -> Result<usize, String> {
         for x in &t.xtors {
             for b in &x.args {
                 if let Ty::D(_) = &b.ty {
-                    if p.ty_decl(&b.ty).is_none() {
-                        return Err("unknown type in signature".into());
-                    }
+                    // a field may mention a type that is never built or matched on and therefore
+                    // has no declaration in pipeline output; it stays opaque
                     if b.chi == Chi::E {
                         return Err("ext binding of declared type".into());
                     }
@@ -423,12 +422,18 @@ pub fn check_stmt(p: &Prog, ctx: &[Bind], s: &Stmt, maxlen: &mut usize) -> Resul
             if last.v.i != var.i || last.chi != Chi::C || last.ty != *ty {
                 return Err("invoke: closure not last or ill-typed".into());
             }
-            if rest.len() != x.args.len() || args.len() != x.args.len() {
+            if rest.len() != x.args.len() || (!args.is_empty() && args.len() != x.args.len()) {
                 return Err("invoke: argument count".into());
             }
-            for ((a, b), sig) in args.iter().zip(rest).zip(&x.args) {
-                if a.v.i != b.v.i || !same_shape(b, sig) {
-                    return Err("invoke: argument not in place or ill-typed".into());
+            for (b, sig) in rest.iter().zip(&x.args) {
+                if !same_shape(b, sig) {
+                    return Err("invoke: argument ill-typed".into());
+                }
+            }
+            // the argument list is empty in `linearize` output; if present it must name the environment
+            for (a, b) in args.iter().zip(rest) {
+                if a.v.i != b.v.i {
+                    return Err("invoke: argument not in place".into());
                 }
             }
             Ok(())
